@@ -16,6 +16,8 @@ pub struct StructInfo {
     pub fields: Vec<(String, Ty)>,
     /// struct view: the Rust struct has more fields than are translated
     pub view: bool,
+    /// ignored fields (manifest `StructIgnore`): writes are dropped, reads are errors
+    pub ignored: Vec<String>,
 }
 
 #[derive(Clone, Debug)]
@@ -186,7 +188,9 @@ pub fn find<'a>(path: &str, file: &'a syn::File, sel: &Sel) -> R<Found<'a>> {
     for item in &file.items {
         match (sel, item) {
             (Sel::Const(n), syn::Item::Const(c)) if c.ident == n && !has_cfg_test(&c.attrs) => hits.push(Found::Const(c)),
-            (Sel::Struct(n), syn::Item::Struct(s)) | (Sel::StructView(n, _), syn::Item::Struct(s)) if s.ident == n && !has_cfg_test(&s.attrs) => {
+            (Sel::Struct(n), syn::Item::Struct(s)) | (Sel::StructView(n, _), syn::Item::Struct(s)) | (Sel::StructIgnore(n, _), syn::Item::Struct(s))
+                if s.ident == n && !has_cfg_test(&s.attrs) =>
+            {
                 hits.push(Found::Struct(s))
             }
             (Sel::Enum(n), syn::Item::Enum(e)) if e.ident == n && !has_cfg_test(&e.attrs) => hits.push(Found::Enum(e)),
@@ -238,7 +242,7 @@ pub fn find<'a>(path: &str, file: &'a syn::File, sel: &Sel) -> R<Found<'a>> {
     }
     let what = match sel {
         Sel::Const(n) => format!("const {}", n),
-        Sel::Struct(n) | Sel::StructView(n, _) => format!("struct {}", n),
+        Sel::Struct(n) | Sel::StructView(n, _) | Sel::StructIgnore(n, _) => format!("struct {}", n),
         Sel::Enum(n) => format!("enum {}", n),
         Sel::Fn(n) => format!("fn {}", n),
         Sel::Method(t, n) => format!("fn {}::{}", t, n),
@@ -292,7 +296,7 @@ impl Globals {
         let mut owner: BTreeMap<String, String> = BTreeMap::new();
         for w in work {
             match &w.sel {
-                Sel::Struct(n) | Sel::Enum(n) | Sel::StructView(n, _) => {
+                Sel::Struct(n) | Sel::Enum(n) | Sel::StructView(n, _) | Sel::StructIgnore(n, _) => {
                     let krate = crate_of(&w.file).to_string();
                     let q = format!("{}::{}", krate, n);
                     let taken = type_names.iter().any(|t| t == n);
@@ -359,7 +363,11 @@ impl Globals {
                             Sel::StructView(_, fs) => Some(fs),
                             _ => None,
                         };
-                        let view = view_fields.is_some();
+                        let ignored: Vec<String> = match sel {
+                            Sel::StructIgnore(_, fs) => fs.iter().map(|x| x.to_string()).collect(),
+                            _ => Vec::new(),
+                        };
+                        let view = view_fields.is_some() || !ignored.is_empty();
                         match &s.fields {
                             syn::Fields::Named(nf) => {
                                 for f in &nf.named {
@@ -368,6 +376,9 @@ impl Globals {
                                         if !vf.contains(&fname.as_str()) {
                                             continue;
                                         }
+                                    }
+                                    if ignored.contains(&fname) {
+                                        continue;
                                     }
                                     let ty = conv_ty(path, &f.ty, Some(&type_key(path, &s.ident.to_string(), &type_names)), &type_names)?;
                                     if let Some(len) = array_len_of(&f.ty) {
@@ -385,7 +396,7 @@ impl Globals {
                             }
                             _ => return err_at(path, s.span(), "only structs with named fields are supported"),
                         }
-                        g.structs.insert(type_key(path, &s.ident.to_string(), &type_names), StructInfo { group: group.clone(), ns: ns.clone(), name: s.ident.to_string(), fields, view });
+                        g.structs.insert(type_key(path, &s.ident.to_string(), &type_names), StructInfo { group: group.clone(), ns: ns.clone(), name: s.ident.to_string(), fields, view, ignored });
                     }
                     Found::Enum(e) => {
                         if e.generics.params.iter().any(|p| !matches!(p, syn::GenericParam::Lifetime(_))) {
@@ -451,9 +462,33 @@ impl Globals {
                             _ => sig.ident.to_string(),
                         };
                         let mut const_params: Vec<String> = Vec::new();
+                        // `I: Into<T>` parameters are values of type `T` (`x.into()` is the identity on them)
+                        let mut into_params: BTreeMap<String, syn::Type> = BTreeMap::new();
                         for gp in &sig.generics.params {
                             match gp {
                                 syn::GenericParam::Lifetime(_) => {}
+                                syn::GenericParam::Type(tp) if tp.bounds.len() == 1 => {
+                                    let mut target: Option<syn::Type> = None;
+                                    if let syn::TypeParamBound::Trait(tb) = &tp.bounds[0] {
+                                        if let Some(seg) = tb.path.segments.last() {
+                                            if seg.ident == "Into" {
+                                                if let syn::PathArguments::AngleBracketed(ab) = &seg.arguments {
+                                                    if ab.args.len() == 1 {
+                                                        if let syn::GenericArgument::Type(t) = &ab.args[0] {
+                                                            target = Some(t.clone());
+                                                        }
+                                                    }
+                                                }
+                                            }
+                                        }
+                                    }
+                                    match target {
+                                        Some(t) => {
+                                            into_params.insert(tp.ident.to_string(), t);
+                                        }
+                                        None => return err_at(path, sig.generics.span(), "generic fn is not supported (only lifetimes, `const N: usize` and `I: Into<T>`)"),
+                                    }
+                                }
                                 syn::GenericParam::Const(c) if matches!(&c.ty, syn::Type::Path(tp) if tp.path.is_ident("usize")) => {
                                     const_params.push(c.ident.to_string())
                                 }
@@ -494,7 +529,13 @@ impl Globals {
                                             mut_params.push(name.clone());
                                         }
                                     }
-                                    params.push((name, conv_ty(path, &pt.ty, self_ty.as_deref(), &type_names)?));
+                                    let decl_ty: &syn::Type = match &*pt.ty {
+                                        syn::Type::Path(tp) if tp.qself.is_none() && tp.path.segments.len() == 1 => {
+                                            into_params.get(&tp.path.segments[0].ident.to_string()).unwrap_or(&pt.ty)
+                                        }
+                                        _ => &pt.ty,
+                                    };
+                                    params.push((name, conv_ty(path, decl_ty, self_ty.as_deref(), &type_names)?));
                                 }
                             }
                         }
@@ -565,10 +606,10 @@ fn register_builtins(g: &mut Globals) {
     let ns = BUILTIN_NS.to_string();
     g.structs.insert(
         "Range".into(),
-        StructInfo { group: String::new(), ns: ns.clone(), name: "Range".into(), fields: vec![("start".into(), Ty::Int(64)), ("end".into(), Ty::Int(64))], view: false },
+        StructInfo { group: String::new(), ns: ns.clone(), name: "Range".into(), fields: vec![("start".into(), Ty::Int(64)), ("end".into(), Ty::Int(64))], view: false, ignored: vec![] },
     );
     for n in ["OctetsMut", "Octets", "BufferTooShortError", "ReadCursor", "WriteCursor"] {
-        g.structs.insert(n.into(), StructInfo { group: String::new(), ns: ns.clone(), name: n.into(), fields: vec![], view: false });
+        g.structs.insert(n.into(), StructInfo { group: String::new(), ns: ns.clone(), name: n.into(), fields: vec![], view: false, ignored: vec![] });
     }
     let bts = Ty::Named("BufferTooShortError".into());
     let bytes = Ty::List(Box::new(Ty::u8()), ListKind::Slice);
